@@ -141,6 +141,31 @@ class _Global(ast.NodeTransformer):
             if isinstance(st, ast.If) and len(st.body) == 1 and len(st.orelse) == 1 and isinstance(st.body[0], ast.Assign) and isinstance(st.orelse[0], ast.Assign) \
                     and len(st.body[0].targets) == 1 and len(st.orelse[0].targets) == 1 and ast.dump(st.body[0].targets[0]) == ast.dump(st.orelse[0].targets[0]):
                 out[k] = ast.copy_location(ast.Assign(targets=[st.body[0].targets[0]], value=ast.IfExp(test=st.test, body=st.body[0].value, orelse=st.orelse[0].value)), st)
+        # G16b: several plain-name targets, the same ones in the same order in both arms, a pure test that reads none of them:
+        #       `if c: a = A1; b = B1 else: a = A2; b = B2` -> `a = A1 if c else A2` ; `b = B1 if c else B2`
+        k = 0
+        while k < len(out):
+            st = out[k]
+            k += 1
+            if not (isinstance(st, ast.If) and len(st.body) >= 2 and len(st.body) == len(st.orelse)):
+                continue
+            arms = []
+            for blk in (st.body, st.orelse):
+                arms.append([(b.targets[0].id, b.value) for b in blk if isinstance(b, ast.Assign) and len(b.targets) == 1 and isinstance(b.targets[0], ast.Name)])
+            if len(arms[0]) != len(st.body) or len(arms[1]) != len(st.orelse) or [n for n, _ in arms[0]] != [n for n, _ in arms[1]]:
+                continue
+            names = [n for n, _ in arms[0]]
+            if len(set(names)) != len(names) or not _is_pure(st.test):
+                continue
+            reads = {x.id for x in ast.walk(st.test) if isinstance(x, ast.Name)} | {x.id for _, v in arms[0] + arms[1] for x in ast.walk(v) if isinstance(x, ast.Name)}
+            if reads & set(names):
+                continue
+            new_sts = [ast.copy_location(ast.Assign(targets=[ast.Name(id=n, ctx=ast.Store())], value=ast.IfExp(test=copy.deepcopy(st.test), body=a, orelse=b)), st)
+                       for (n, a), (_, b) in zip(arms[0], arms[1])]
+            for ns in new_sts:
+                ast.fix_missing_locations(ns)
+            out[k - 1:k] = new_sts
+            k += len(new_sts) - 1
         # G2: else after an exiting body is hoisted
         res: list[ast.stmt] = []
         i = 0
@@ -1718,6 +1743,7 @@ def normalize_module(tree: ast.Module, modname: str, log: list[str] | None = Non
     if not known_mod:
         return _fix(tree)
     _inline_new_module_constants(tree, modname, log)
+    tree = _LocalAnnotations().visit(tree)  # G20 early: bare local annotations would count as extra bindings below
     new = [(q, f, c, b) for q, f, c, b in fns if q not in ref]
     # R1: inline new helpers (only those without decorators other than staticmethod/classmethod)
     if new or imported:
@@ -1795,6 +1821,22 @@ def normalize_module(tree: ast.Module, modname: str, log: list[str] | None = Non
         tree = _Global().visit(tree)
         if ast.dump(tree) == before:
             break
+    # the global rewrites may have produced new single-definition locals (e.g. branch assignments merged into conditional
+    # expressions): one more round of propagation, then the global rewrites once more
+    again = False
+    for q, f, c, b in _functions(tree, modname):
+        if q in ref:
+            n0 = len(log)
+            _propagate_new_locals(f, ref[q]["locals"], log)
+            if _forward_substitute_single_use(f, ref[q]["locals"], log):
+                _propagate_new_locals(f, ref[q]["locals"], log)
+            again = again or len(log) != n0
+    if again:
+        for _ in range(3):
+            before = ast.dump(tree)
+            tree = _Global().visit(tree)
+            if ast.dump(tree) == before:
+                break
     tree = _LocalAnnotations().visit(tree)
     # G9: canonical spelling of equivalent idioms (sa.astx._Idioms) on every expression of the module
     from sa.astx import _Idioms
